@@ -22,7 +22,8 @@ D = T.DIMS
 
 
 def check_shape(kw, zope, fielddoc, samename=False):
-    sources, exporter, newname = T.gen(zope=zope, fielddoc=fielddoc, samename=samename, **kw)
+    # (the same-named sub-module variant also carries a sub-module re-exported by a plain module)
+    sources, exporter, newname = T.gen(zope=zope, fielddoc=fielddoc, samename=samename, submod=samename, **kw)
     sample(shape=kw, sources={k: v[0] for k, v in sources.items()})
     try:
         s = PJ.build(sources)
